@@ -137,6 +137,15 @@ static int sig_quiescent(void) {
   int pending = 0;
   for (int i = 0; i < fmc_nops(); i++)
     if (o[i].kind == OP_WAIT && !o[i].resp) pending++;
+  // raise_strict spins on its kernel thread until a waiter shows up. When every kernel thread is
+  // occupied by such a spinner the fibers that would wait can never run: that is a property of the
+  // PROGRAM (more strict raisers than spare kernel threads), not of the signal, and says nothing.
+  if (ch == 7) {
+    int spinning = 0;
+    for (int i = 0; i < fmc_nops(); i++)
+      if (o[i].kind == OP_RAISE && !o[i].resp) spinning++;
+    if (spinning >= fmc_param("N", 2)) fmc_end();
+  }
   int e = fmc_op_begin(OP_END, pending);
   fmc_op_end(e, 0);
   uint8_t flag = 0;
@@ -163,11 +172,16 @@ int harness_main(void) {
   shape = fmc_param("shape", 0);
   rt_start();
   fiber_signal_init(&sig);
+  fmc_focus(&sig, sizeof sig);
+  fmc_focus(&msig, sizeof msig);
+  fmc_focus(&uc, sizeof uc);
+  fmc_focus(&usc, sizeof usc);
   if (ch == 0) bc = fiber_bounded_channel_create(1, &sig);
   if (ch == 1) bc = fiber_bounded_channel_create(1, 0);
+  if (bc) fmc_focus(bc, sizeof *bc + 2 * sizeof(void*));
   if (ch == 2) fiber_unbounded_channel_init(&uc, &sig);
   if (ch == 3) fiber_unbounded_sp_channel_init(&usc, &sig);
-  if (ch == 4) { mc = fiber_multi_channel_create(1); g_single_receiver = plan[shape][3] == 0; }
+  if (ch == 4) { mc = fiber_multi_channel_create(1); g_single_receiver = plan[shape][3] == 0; fmc_focus(mc, sizeof *mc + 2 * sizeof(void*)); }
   fmc_begin();
   if (ch >= 5) {
     nraise = fmc_param("raises", 2);
